@@ -20,7 +20,7 @@ func init() {
 		window := int64(0)
 		readCall, sniffArg := "", ""
 		if fd := funcDecl("client/request.go", "request", "buildHTTP"); fd != nil && fd.Body != nil {
-			ast.Inspect(fd.Body, func(n ast.Node) bool {
+			ast.Inspect(reach("client/request.go", fd), func(n ast.Node) bool {
 				switch x := n.(type) {
 				case *ast.GenDecl:
 					if x.Tok == token.CONST {
